@@ -278,6 +278,10 @@ def evaluate(case) -> Verdict:
         elif expect == "depth" and o[1] != "ContextDepthError":
             cause = "RecursionError" if oc.has_recursion_cause(err) else "-"
             v.fail(f"render:wrong-error:{o[1]}:cause={cause}", f"{desc}: expected ContextDepthError, got {o[1]} (cause {cause}): {str(err).splitlines()[0]!r}")
+        elif expect == "depth" and case["d"] <= 3 and oc.has_recursion_cause(err):
+            # with at most three blocks per level the depth limit (30 levels) lies far inside the Python stack (1000 frames):
+            # a depth error that is a converted RecursionError means the limit did not count this kind of recursion
+            v.fail(f"render:stack-exhausted-before-depth-limit:{case['edge']}", f"{desc}: ContextDepthError caused by RecursionError: {str(err).splitlines()[0]!r}")
         elif expect == "inheritance" and o[1] != "TemplateInheritanceError":
             v.fail(f"render:wrong-error:{o[1]}", f"{desc}: expected TemplateInheritanceError, got {o[1]}")
     else:
